@@ -42,7 +42,16 @@ func (w *World) genValue(a *Account, key []byte) []byte {
 		if w.Cfg.Thin {
 			return verif.Bytes("nonce.value", 1)
 		}
-		return verif.BytesOf("nonce.value", 8, 1)
+		nv := verif.BytesOf("nonce.value", 8, 1)
+		if len(nv) == 8 {
+			// stated bound: the counter is below 2^64-1 (the nonce+1 wrap needs 2^64 creates)
+			all := true
+			for _, b := range nv {
+				all = verif.And(all, b == 0xff)
+			}
+			verif.Assume(!all)
+		}
+		return nv
 	}
 	n := w.Cfg.RawOther
 	if n == 0 {
@@ -99,6 +108,8 @@ func (w *World) GenToken(x []byte) *esdt.ESDigitalToken {
 	frozen := false
 	if !w.Cfg.NoFrozenGen && !w.Cfg.Thin && verif.Bool("tok.hasProps") {
 		t.Properties = verif.Bytes("tok.props", 2)
+		// Inv: properties are only ever written by ESDTUserMetadata.ToBytes: {0|1, 0}
+		verif.Assume(verif.And(t.Properties[0] <= 1, t.Properties[1] == 0))
 		frozen = t.Properties[0]&1 != 0
 	}
 	hasMeta := false
@@ -148,7 +159,7 @@ func (w *World) GenToken(x []byte) *esdt.ESDigitalToken {
 }
 
 // assertInv is C15's obligation on every logged write.
-func (w *World) assertInv(a *Account, key, value []byte) {
+func (w *World) assertInv(a *Account, key, value, old []byte) {
 	class := KeyClass(key)
 	switch class {
 	case "token":
@@ -156,7 +167,7 @@ func (w *World) assertInv(a *Account, key, value []byte) {
 			return
 		}
 		if a.IsSystem {
-			verif.Assert("inv-system-entry-is-pause-flag", len(value) == 2)
+			verif.AssertExcept("inv-system-entry-is-pause-flag", len(value) == 2, "F10", w.SysDestCall)
 			return
 		}
 		t := w.Codec.Token(value)
@@ -196,9 +207,14 @@ func (w *World) assertInv(a *Account, key, value []byte) {
 		}
 		roles := w.Codec.RolesOf(value)
 		verif.Assert("inv-roles-decode", roles != nil)
+		// "no duplicates under system-contract discipline": the harness may state the discipline
+		disciplined := true
+		if w.RoleDiscipline != nil {
+			disciplined = w.RoleDiscipline(w.Codec.RolesOf(old))
+		}
 		for i := range roles {
 			for j := i + 1; j < len(roles); j++ {
-				verif.Assert("inv-roles-distinct", !verif.BytesEq(roles[i], roles[j]))
+				verif.Assert("inv-roles-distinct", verif.Or(!disciplined, !verif.BytesEq(roles[i], roles[j])))
 			}
 		}
 	case "nonce":
